@@ -341,6 +341,9 @@ func newN3NodeOpts(dir string, o nodeOpts) *n3Node {
 	c.Consensus.TimeoutPropose = 200 * time.Millisecond
 	c.Consensus.TimeoutProposeDelta = 10 * time.Millisecond
 	c.Consensus.PeerGossipSleepDuration = gossipSleep
+	if gossipSleep <= 10*time.Millisecond {
+		c.Consensus.PeerQueryMaj23SleepDuration = 10 * time.Millisecond // so that queryMaj23Routine acts within a dwell
+	}
 	c.Consensus.CreateEmptyBlocks = true
 	c.Consensus.TimeoutCommit = o.timeoutCommit
 	c.Consensus.SkipTimeoutCommit = o.skipTimeoutCommit
